@@ -136,7 +136,7 @@ pub fn check(case: &Case) -> Verdict {
         let sf = c.scale(case.ty, from);
         let st_inv = c.scale(case.ty, to).recip();
         let exact_amt = a_rat.mul(sf).mul(&st_inv);
-        let w = match amt::product_budget_reps(&[&a_rat, sf, &st_inv], &[sf, c.scale(case.ty, to)]) {
+        let w = match amt::conversion_budget(&a_rat, sf, c.scale(case.ty, to)) {
             None => Within::OutOfModel,
             Some(b) => if amt::close(conv.0, &exact_amt, &b, 1) { Within::Yes } else { Within::No },
         };
@@ -193,7 +193,8 @@ pub fn check(case: &Case) -> Verdict {
         if u != v {
             let ideal_in = mag.div(c.scale(case.ty, u));
             let sv_inv = c.scale(case.ty, v).recip();
-            match amt::product_budget_reps(&[&ideal_in, c.scale(case.ty, u), &sv_inv], &[c.scale(case.ty, u), c.scale(case.ty, v)]) {
+            let _ = &sv_inv;
+            match amt::conversion_budget(&ideal_in, c.scale(case.ty, u), c.scale(case.ty, v)) {
                 Some(b) => budget = budget.add(&b.mul(c.scale(case.ty, v)).mul(&s_last_inv)),
                 None => in_model = false,
             }
@@ -224,14 +225,14 @@ impl Property for C01 {
         "proptest draws (type with reference unit incl. AmountT, astronomical and synthetic types; ordered unit pair or a path of 3-7 units; finite amount from a weighted union of small integers, typed-in decimals, powers of two, random mantissas over the whole exponent range, extremes). Oracle: exact rational amount*S(from)/S(to) with S from the independent definition table, rounding budget of DESIGN.md 3.2; same-unit conversions must return identical bits; equiv_amount must equal the stored amount. Non-trivial: different units with different scales and a non-zero amount; distinct by full case".into()
     }
     fn assumptions(&self) -> Vec<String> {
-        vec!["rounding budget: f64 16 u relative while no partial product leaves 2^+-960; decimal 8e-18 * (1 + |R| / min sub-product)".into()]
+        vec!["rounding budget: f64 16 u relative while no partial product leaves 2^+-960; decimal 8e-18 * (1 + |amount| + |result|) per conversion".into()]
     }
     fn tape_len(&self) -> usize {
         16
     }
     fn cases(&self, tier: Tier) -> u64 {
         match tier {
-            Tier::Quick => 40_000,
+            Tier::Quick => 200_000,
             Tier::Thorough => 3_000_000,
         }
     }
